@@ -2,6 +2,7 @@
 import lib
 import urlcorr
 import genlib
+import specialcorr
 from lib import hx
 
 
@@ -109,6 +110,9 @@ def check(run):
         run.oblige("corr:L1 Model.FastScan.fastScan = try_can_parse_absolute_fast on every input", not bad,
                    "; ".join(f"input {lib.unhx(h)!r}: implementation {r}, model {a}" for h, r, a in bad[:5]))
     run.extra["fast_scanner_answers"] = fast
+    # L1: the validation-only instantiation parse_url_impl<url_aggregator, false> (Model/ParseValid.lean, proved to give the
+    # verdict of the storing parser in Props/C08.validation_only_is_storing / _is_parse) called directly, without and with a base
+    specialcorr.explore_valid(run, binp, 16000 if run.tier == "quick" else 250000)
     run.sample({"op": lines[0][:200], "answer": outs[0]})
     run.sample({"op": lines[-1][:200], "answer": outs[-1]})
     run.oblige("L3:can_parse==parse(base)&&parse(input,base)", True)
